@@ -439,6 +439,26 @@ static void scenario_tag(void) {
   dump_arenas();
 }
 
+// an exclusive arena of ONE block and a heap bound to it: after a small block was allocated and freed its page is only retired and the
+// segment stays claimed; a request that needs the whole block must still succeed (no block is live, the OS refuses nothing):
+// _mi_malloc_generic collects and retries once before it reports failure
+static void scenario_refill(void) {
+  myarena_t* A = make_managed(1, 0, 0, true);
+  if (A == NULL) { printf("T count %s setup_failed 1\n", SCN); return; }
+  mi_heap_t* h = mi_heap_new_in_arena(A->id);
+  static const size_t small[] = { 100, 5000, 70000, 300000 };
+  int nulls = 0, rounds = 0;
+  for (int r = 0; r < 8; r++) {
+    void* p = mi_heap_malloc(h, small[prng_below(&G, 4)]);
+    if (p == NULL) { printf("T count %s setup_failed 1\n", SCN); return; }
+    memset(p, 3, 64); mi_free(p);
+    void* q = mi_heap_malloc(h, (size_t)20 << 20);      // a huge block: needs the arena's only block
+    rounds++;
+    if (q == NULL) nulls++; else { memset(q, 5, 4096); mi_free(q); }
+  }
+  printf("T count %s refill_rounds %d\nT count %s refill_null %d\n", SCN, rounds, SCN, nulls);
+}
+
 // the entry points WITHOUT the `_ex` out-parameter (they pass arena_id = NULL down): mi_reserve_os_memory, mi_manage_os_memory
 static void scenario_plainapi(void) {
   const size_t before = mi_arena_get_count();
@@ -459,7 +479,7 @@ static const scn_t SCNS[] = {
   { "pure", scenario_pure, 1, 1 }, { "manage", scenario_manage, 1, 3 }, { "corpus", scenario_corpus, 1, 2 },
   { "spans", scenario_spans, 2, 6 }, { "onfree", scenario_onfree, 2, 6 }, { "tryreclaim", scenario_tryreclaim, 2, 6 },
   { "exhaust", scenario_exhaust, 2, 6 }, { "history", scenario_history, 4, 16 }, { "tag", scenario_tag, 1, 1 },
-  { "plainapi", scenario_plainapi, 1, 1 },
+  { "plainapi", scenario_plainapi, 1, 1 }, { "refill", scenario_refill, 1, 2 },
 };
 
 static void on_fatal(int sig) {
